@@ -18,13 +18,15 @@ def configs(ctx):
     fwd, inv, opt = [], [], []
     B, Q = 'near_sym_a', 'qshift_a'
     H, W, J = 6, 10, 2          # neither size equals 2 x 6 orientations: a confused axis cannot pass by coincidence
+    sizes_l = [(H, W, J)] if ctx.quick else [(H, W, J), (10, 14, 3)]
     for (o, r) in layouts():
         spell = [(o, r), (o - 6, r - 6), (o, r - 6), (o - 6, r)]
         if ctx.quick:
             spell = [(o, r), (o - 6, r - 6)] + ([(o, r - 6), (o - 6, r)] if (o + r) % 3 == 0 else [])
         for (oo, rr) in spell:
-            fwd.append((B, Q, H, W, J, 1, 2, oo, rr, 0, 0))
-            inv.append((B, Q, H, W, J, 1, 2, oo, rr, 0, 'none', False))
+            for (Hl, Wl, Jl) in sizes_l:
+                fwd.append((B, Q, Hl, Wl, Jl, 1, 2, oo, rr, 0, 0))
+                inv.append((B, Q, Hl, Wl, Jl, 1, 2, oo, rr, 0, 'none', False))
     # skip / include masks, every mask for J <= 3, against the reference and against the plain transform
     for Jm in (1, 2, 3):
         for mask in range(1, 2 ** Jm):
